@@ -24,7 +24,7 @@ ASSUMPTIONS = ['scipy.stats t/F quantile functions are trusted', 'differential t
 
 @st.composite
 def _spec(draw):
-  n = draw(st.one_of(st.integers(3, 9), st.integers(3, 60), st.integers(10, 60)))
+  n = draw(st.one_of(st.integers(3, 9), st.integers(3, 60), st.integers(10, 60), st.integers(3, 60), st.integers(95, 170)))
   n_test = draw(st.one_of(st.integers(1, 4), st.integers(1, 30)))
   spec = {
       'n': n, 'n_test': n_test,
